@@ -127,12 +127,19 @@ def ndl(events, alpha, betas, lambda_=1.0, *,
 
     """
 
-    # Create temporary file if events is a generator
+    # Create temporary file if events is a generator; the file lives in a
+    # temporary directory, which is removed when learning is finished or fails
     if isinstance(events, types.GeneratorType):
-        file_path = tempfile.NamedTemporaryFile().name
-        io.events_to_file(events, file_path)
-        events = file_path
-        del file_path
+        with tempfile.TemporaryDirectory(prefix="pyndl", dir=temporary_directory) as spool_path:
+            file_path = os.path.join(spool_path, "events.tab.gz")
+            io.events_to_file(events, file_path)
+            return ndl(file_path, alpha, betas, lambda_,
+                       method=method, weights=weights,
+                       number_of_threads=number_of_threads, n_jobs=n_jobs,
+                       len_sublists=len_sublists, n_outcomes_per_job=n_outcomes_per_job,
+                       remove_duplicates=remove_duplicates,
+                       verbose=verbose, temporary_directory=temporary_directory,
+                       events_per_temporary_file=events_per_temporary_file)
 
     if number_of_threads is not None:
         warnings.warn("Parameter `number_of_threads` is renamed to `n_jobs`. The old name "
